@@ -4,11 +4,12 @@
     [nat] stays the extracted inductive type.  The files model.ml / model.mli
     are written into the directory coqc runs in (coq/). *)
 From Coq Require Import Extraction ExtrOcamlBasic ExtrOcamlZBigInt.
-From PS Require Import Spec.Primes Spec.Cursor Model.Pmath Model.Iterator Model.PrimeGen Model.Tiling Model.Calc.
+From PS Require Import Spec.Primes Spec.Cursor Model.Pmath Model.Iterator Model.PrimeGen Model.Tiling Model.Calc Model.NthPrime.
 Extraction Language OCaml.
 Extraction "model.ml"
   is_prime primes_between
   checkedAdd checkedSub inBetween
   fresh_iter step chunks pg_primes
   align threshold idealNumThreads getThreadDistance plan
-  ty_u64 ty_i64 ty_int checked exact eval.
+  ty_u64 ty_i64 ty_int checked exact eval
+  nth_prime.
